@@ -63,32 +63,41 @@ def anyUpperLess : Nat → Mat → Nat → Bool
   | k, r :: rs, d =>
     ((r.drop (k + 1)).any fun x => decide (x < d)) || anyUpperLess (k + 1) rs d
 
-/-- column `j` of `K` -/
-def col (K : Mat) (j : Nat) : List Nat := K.map fun r => r.getD j 0
+/-- per column of `K`: (`np.sum(K < d, axis=0)`, `np.sum(np.ma.masked_less(K, d), axis=0).data`),
+    accumulated row by row as the axis-0 sums are -/
+def colStats (K : Mat) (d : Nat) : List (Nat × Nat) :=
+  K.foldl (fun acc row => List.zipWith (fun (cs : Nat × Nat) x =>
+      if x < d then (cs.1 + 1, cs.2) else (cs.1, cs.2 + x)) acc row)
+    (List.replicate K.length (0, 0))
 
 /-- `K_rows_sortkeys[j] = -sum(K[:,j] < d) * (len(K) * diam_X) + sum(K[:,j] where ≥ d)` -/
 def sortKeys (keyMul : Nat → Nat → Int) (K : Mat) (diam d : Nat) : List Int :=
-  (List.range K.length).map fun j =>
-    let c := col K j
-    let cnt : Nat := (c.filter fun x => decide (x < d)).length
-    let sm : Nat := (c.filter fun x => !decide (x < d)).foldl (· + ·) 0
-    (sm : Int) - (cnt : Int) * keyMul K.length diam
+  (colStats K d).map fun cs => (cs.2 : Int) - (cs.1 : Int) * keyMul K.length diam
 
-/-- the `while np.any(...)` loop on the list of kept indices.  The fuel is the number of kept
-    indices; each round removes one, and the loop condition is false on fewer than two indices, so
-    the fuel never runs out before the condition fails (the `0` case is reached only with
-    `idx = []`, for which the answer `[]` is the code's). -/
-def curvLoop (keyMul : Nat → Nat → Int) (D : Mat) (diam d : Nat) : Nat → List Nat → List Nat
-  | 0, _ => []
-  | fuel + 1, idx =>
-    let K := sub D idx
+/-- `K = np.delete(K, r, axis=0); K = np.delete(K, r, axis=1)` -/
+def delRowCol (K : Mat) (r : Nat) : Mat := (K.eraseIdx r).map fun row => row.eraseIdx r
+
+/-- the `while np.any(...)` loop.  The state is the curvature `K` itself, as in the code, together
+    with the list of the original indices of its rows (ghost: the code does not keep it).  The
+    recursion bound is the number of rows; each round removes one, and the loop condition is false
+    on fewer than two rows, so the bound is never exhausted before the condition fails
+    (`curvature_fuel_irrelevant`); its `0` case is reached only with no rows left, for which the
+    answer is the code's. -/
+def curvLoop (keyMul : Nat → Nat → Int) (diam d : Nat) : Nat → Mat → List Nat → Mat × List Nat
+  | 0, _, _ => ([], [])
+  | fuel + 1, K, idx =>
     if anyUpperLess 0 K d then
-      curvLoop keyMul D diam d fuel (idx.eraseIdx (argmin (sortKeys keyMul K diam d)))
-    else idx
+      let r := argmin (sortKeys keyMul K diam d)
+      curvLoop keyMul diam d fuel (delRowCol K r) (idx.eraseIdx r)
+    else (K, idx)
+
+/-- `find_largest_size_bounded_curvature(DX, diam_X, d)` and the indices of the rows it keeps -/
+def largestBoundedCurvature (keyMul : Nat → Nat → Int) (D : Mat) (diam d : Nat) : Mat × List Nat :=
+  curvLoop keyMul diam d D.length D (List.range D.length)
 
 /-- indices of the rows of `DX` kept by `find_largest_size_bounded_curvature(DX, diam_X, d)` -/
 def largestBoundedCurvatureIdx (keyMul : Nat → Nat → Int) (D : Mat) (diam d : Nat) : List Nat :=
-  if D.length = 0 then [] else curvLoop keyMul D diam d D.length (List.range D.length)
+  (largestBoundedCurvature keyMul D diam d).2
 
 /-! ### distributions -/
 
@@ -191,7 +200,7 @@ def confirmLb (d : Nat) (K DY : Mat) (maxDiam : Nat) : Bool :=
 /-- one side of the body of the `while d > double_lb` loop -/
 def trySide (keyMul : Nat → Nat → Int) (DX DY : Mat) (diamX maxDiam d : Nat) : Bool :=
   decide (d ≤ diamX) &&
-    (let K := sub DX (largestBoundedCurvatureIdx keyMul DX diamX d)
+    (let K := (largestBoundedCurvature keyMul DX diamX d).1
      decide (K.length > 2) && confirmLb d K DY maxDiam)
 
 /-- the `while d > double_lb` loop, `d` counting down (structural on `d`) -/
@@ -229,12 +238,25 @@ def mapLoop (DX DY : Mat) : List Nat → List (Nat × Nat) → Nat → List (Nat
     let y := argmin bs
     mapLoop DX DY rest (mapped ++ [(x, y)]) (max (bs.getD y 0) dist)
 
+/-- the same loop with `DY[:, mapped_xs_images]` kept as a state `W` (one column appended per round)
+    instead of being re-selected in every round; `mapLoopFast_eq` (Lemmas/MGHUb.lean) proves it equal
+    to `mapLoop`.  Only the running time differs (cubic instead of quartic in list steps). -/
+def mapLoopFast (DX DY : Mat) : List Nat → List (Nat × Nat) → Mat → Nat → List (Nat × Nat) × Nat
+  | [], mapped, _, dist => (mapped, dist)
+  | x :: rest, mapped, W, dist =>
+    let rowX := DX.getD x []
+    let xs := mapped.map fun p => rowX.getD p.1 0
+    let bs := W.map fun wy => (List.zipWith absDiff xs wy).foldl max 0
+    let y := argmin bs
+    let W' := List.zipWith (fun wy rowY => wy ++ [rowY.getD y 0]) W DY
+    mapLoopFast DX DY rest (mapped ++ [(x, y)]) W' (max (bs.getD y 0) dist)
+
 /-- `construct_mapping(DX, DY, pi)` with the first image `y0 = np.random.choice(len(DY))`;
     returns the pairs (π(k), image of π(k)) and the distortion -/
 def constructMapping (DX DY : Mat) (pi : List Nat) (y0 : Nat) : Except Err (List (Nat × Nat) × Nat) :=
   match pi with
   | [] => .error .index                       -- `pi[0]` on an empty permutation
-  | x0 :: rest => .ok (mapLoop DX DY rest [(x0, y0)] 0)
+  | x0 :: rest => .ok (mapLoopFast DX DY rest [(x0, y0)] (DY.map fun rowY => [rowY.getD y0 0]) 0)
 
 /-- `min(distortion, ub_of_min_distortion)` with `none` = `np.inf` -/
 def minOpt (dist : Nat) : Option Nat → Nat
@@ -277,6 +299,9 @@ def estimate (kmX kmY : Nat → Nat → Int) (DX DY : Mat) (permsXY : List (List
   match findUb DX DY permsXY y0sXY permsYX y0sYX lb with
   | .error e => .error e
   | .ok (ub, _, _) => .ok (lb, ub)
+
+/-- `len(K) * int(diam_X)`: the product of the (repaired) code, in unbounded integers -/
+def exactMul (len diam : Nat) : Int := ((len * diam : Nat) : Int)
 
 /-- `len(K) * diam_X` in a signed `bits`-bit integer type (`np.int8` scalar times Python int) -/
 def wrapMul (bits : Nat) (len diam : Nat) : Int :=
